@@ -395,9 +395,8 @@ func (i *insertExecutor) parsePkValuesFromStatement(insertStmt *ast.InsertStmt, 
 				} else {
 					pkValues = append(pkValues, pkValue)
 				}
-				if _, ok := pkValuesMap[pkKey]; !ok {
-					pkValuesMap[pkKey] = pkValues
-				}
+				// keep the key of every row, not only of the first one
+				pkValuesMap[pkKey] = pkValues
 			}
 		}
 	} else {
